@@ -26,6 +26,9 @@ pub enum Op {
 	/// header batch through sync_block_headers: honest `ids` (a parent-linked chain ending at the
 	/// bad block's parent) followed by the bad block's header
 	BadBatch { node: usize, ids: Vec<usize>, bad: usize },
+	/// the byzantine block in full (refused, its valid header remembered), then the valid headers
+	/// that extend it: a header-only fork with more work than the node's own chain
+	BadWithGhosts { node: usize, bad: usize },
 	Restart { node: usize },
 	Compact { node: usize },
 	Validate { node: usize, fast: bool },
@@ -42,6 +45,7 @@ impl Op {
 			| Op::Bad { node, .. }
 			| Op::BadHeader { node, .. }
 			| Op::BadBatch { node, .. }
+			| Op::BadWithGhosts { node, .. }
 			| Op::Restart { node }
 			| Op::Compact { node }
 			| Op::Validate { node, .. }
@@ -732,6 +736,37 @@ impl<'w> ChainSim<'w> {
 				self.after_bad(n, hash, header_bad, &kind)?;
 				Ok(format!("bad[{}]:{}", kind, cls))
 			}
+			Op::BadWithGhosts { bad, .. } => {
+				let bb = &self.world.bad[*bad];
+				let res = self.nodes[n].chain().process_block(bb.block.clone(), opts);
+				let cls = match &res {
+					Ok(_) => "ACCEPTED".to_string(),
+					Err(e) => err_class(e),
+				};
+				let evs = self.nodes[n].take_events();
+				if self.oracles.reject_bad && (res.is_ok() || !evs.is_empty()) {
+					return Err(self.viol(
+						&format!("bad-accepted:{}", bb.kind),
+						format!("node {} accepted an invalid block ({}) on parent #{}", n, bb.kind, bb.parent),
+					));
+				}
+				let kind = bb.kind.clone();
+				let (hash, header_bad) = (bb.hash, bb.header_bad);
+				let ghosts = bb.ghosts.clone();
+				let mut taken = 0;
+				for g in &ghosts {
+					if self.nodes[n].chain().process_block_header(g, opts).is_ok() {
+						taken += 1;
+					}
+				}
+				if taken > 0 {
+					self.allow_hh_div[n] = true;
+					self.probe("ghost_headers_accepted");
+				}
+				*self.faults.entry(format!("bad+ghosts:{}", kind)).or_insert(0) += 1;
+				self.after_bad(n, hash, header_bad, &kind)?;
+				Ok(format!("bad+ghosts[{}]:{}+{}", kind, cls, taken))
+			}
 			Op::BadHeader { bad, .. } => {
 				let bb = &self.world.bad[*bad];
 				let res = self.nodes[n].chain().process_block_header(&bb.block.header, opts);
@@ -913,7 +948,7 @@ impl<'w> ChainSim<'w> {
 			return Ok(());
 		}
 		let pre = if self.oracles.twin { self.nodes[n].digest().ok() } else { None };
-		let is_bad = matches!(op, Op::Bad { .. } | Op::BadHeader { .. } | Op::BadBatch { .. });
+		let is_bad = matches!(op, Op::Bad { .. } | Op::BadHeader { .. } | Op::BadBatch { .. } | Op::BadWithGhosts { .. });
 		let pre_view = if self.oracles.twin && is_bad {
 			self.nodes[n].unspent_view(&self.commits).ok()
 		} else {
@@ -926,7 +961,7 @@ impl<'w> ChainSim<'w> {
 			let t = n + self.n_nodes;
 			if is_bad {
 				let bad = match op {
-					Op::Bad { bad, .. } | Op::BadHeader { bad, .. } | Op::BadBatch { bad, .. } => bad,
+					Op::Bad { bad, .. } | Op::BadHeader { bad, .. } | Op::BadBatch { bad, .. } | Op::BadWithGhosts { bad, .. } => bad,
 					_ => unreachable!(),
 				};
 				// C06: the failed call left the best-chain state untouched
@@ -1113,6 +1148,9 @@ pub struct SchedCfg {
 	/// deliver the trunk's bodies first and the side branches afterwards (a fork that shows up
 	/// when the head is already far ahead of its fork point)
 	pub side_branches_last: bool,
+	/// rejected blocks that carry a header-only fork are delivered (with that fork) right after
+	/// their parent, before the honest chain has grown past them
+	pub ghosts_early: bool,
 }
 
 impl SchedCfg {
@@ -1129,6 +1167,7 @@ impl SchedCfg {
 			compact_once_near_tip: false,
 			shuffle_window: *rng.pick(&[0, 0, 4, 8]),
 			side_branches_last: false,
+			ghosts_early: false,
 		}
 	}
 }
@@ -1267,7 +1306,10 @@ pub fn gen_schedule(world: &World, cfg: &SchedCfg, rng: &mut SimRng) -> (Vec<Op>
 			}
 			if cfg.bad_pct > 0 {
 				for (bi, bb) in world.bad.iter().enumerate() {
-					if bb.parent == *id && rng.chance(cfg.bad_pct, 100) {
+					if bb.parent == *id && cfg.ghosts_early && !bb.ghosts.is_empty() {
+						seq.push(Op::BadWithGhosts { node, bad: bi });
+						bad_done.insert(bi);
+					} else if bb.parent == *id && rng.chance(cfg.bad_pct, 100) {
 						seq.push(bad_op(world, node, bi, rng));
 						bad_done.insert(bi);
 					}
@@ -1311,6 +1353,9 @@ pub fn gen_schedule(world: &World, cfg: &SchedCfg, rng: &mut SimRng) -> (Vec<Op>
 /// One way of delivering byzantine block `bi`: full block, header alone, or at the end of a header batch.
 fn bad_op(world: &World, node: usize, bi: usize, rng: &mut SimRng) -> Op {
 	let bb = &world.bad[bi];
+	if !bb.ghosts.is_empty() && rng.chance(2, 3) {
+		return Op::BadWithGhosts { node, bad: bi };
+	}
 	match rng.below(if bb.header_bad { 4 } else { 6 }) {
 		0 | 4 | 5 => Op::Bad { node, bad: bi },
 		1 => Op::BadHeader { node, bad: bi },
